@@ -6,7 +6,7 @@ PROPERTY = "C08"
 
 def tasks(tier):
     return contract_tasks("contracts.tiered_time", "C08") + lemma_tasks("contracts.tiered_time", "C08") \
-        + contract_tasks("contracts.scenario_min", "C08")
+        + contract_tasks("contracts.scenario_min", "C08") + contract_tasks("contracts.connect", "C08")
 
 
 TRUSTED_BASE = TRUSTED_CORE + [
